@@ -62,7 +62,11 @@ def run(rep, tier, seed):
                                         Classes=[K('K1', copyOn=True), K('K2', rate='frac')], Extractors=['none'], SaveFails=[False],
                                         StartEnabled=[True]), invariants=INVS, timeout=3000)
             ex = chk.generate('gen2', gen_consts(2), cassettes=('memory', 'file'), n_conc=4, all_paths=True)
-            chk.generate('gen3', gen_consts(3), cassettes=('memory',), n_conc=2, all_paths=True, cap=300000)
+            chk.generate('gen3', gen_consts(3, Classes=[K('K1', copyOn=True), K('K2', rate='frac')],
+                                            Bodies=['plain', 'discards', 'forces', 'nestOther'],
+                                            InCalls=[('ia2', 2), ('ia1', 1)], Extractors=['none'], SaveFails=[False],
+                                            StartEnabled=[True]),
+                         cassettes=('memory',), n_conc=2, sample=120000, cap=200000)
             rep.exhaustive = bool(ex)
         from . import c04_threads
         c04_threads.run_part(rep, tier, seed)
